@@ -1137,7 +1137,7 @@ def r2b_no_trap_verdicts_rest_on_stable_types(ctx):
             good = False
             for S, al in w.constraints(c.block):
                 si = w.switch_info(S)
-                if si["kind"] == "call" and set(al) == {0} and (si["callee"] or "").startswith(R) and len(si["call"]["args"]) > 1 and sh(ne(w.deep(si["call"]["args"][1]))) == subj:
+                if si["kind"] == "call" and set(al) == {0} and (si["callee"] or "").startswith(R) and si["call"]["args"] and sh(ne(w.deep(si["call"]["args"][-1]))) == subj:
                     pf = ctx.lib.fns.get(si["callee"])
                     if pf is not None and pf.locals[0]["ty"] == "bool":
                         good, pred = True, pf
@@ -1179,12 +1179,13 @@ def r2b_no_trap_verdicts_rest_on_stable_types(ctx):
     for pf in {id(v): v for v in gates.values()}.values():
         ctx.touch(pf)
         pname = pf.id.split("::")[-1]
-        arg = 2 if pf.argc >= 2 else 1
+        arg = pf.argc      # the expression is the last parameter (with or without self)
         tab = mir_enum_table(pf, arg) or {}
         if not tab:
             ctx.bad("settled|%s|no-table" % pname, pf.where(), "%s does not dispatch on the kind of its expression" % pname)
             continue
         table_field = None
+        needs_table = False
         for kind, res in sorted(tab.items()):
             vals = [str(x) for x in res]
             pa = _dispatch_arm(pf, "parser::Expr", kind)
@@ -1193,7 +1194,7 @@ def r2b_no_trap_verdicts_rest_on_stable_types(ctx):
             i_tables = [c for c in i_calls if c.callee in reach_tab and c.callee != INFER]
             i_rec = sorted({sh(ne(inf.deep(c.args[1]))) for c in i_calls if c.callee == INFER and len(c.args) > 1})
             p_calls = [c for c in pf.calls() if pa and c.block in pa]
-            p_rec = sorted({sh(ne(pf.deep(c.args[1]))) for c in p_calls if c.callee == pf.id and len(c.args) > 1})
+            p_rec = sorted({sh(ne(pf.deep(c.args[-1]))) for c in p_calls if c.callee == pf.id and c.args})
             key = "settled|%s|%s" % (pname, kind)
             if vals == ["false"]:
                 if i_tables or i_rec:
@@ -1209,6 +1210,7 @@ def r2b_no_trap_verdicts_rest_on_stable_types(ctx):
             if missing:
                 problems.append("does not look into %s, which the inferred type depends on" % ", ".join(missing))
             if any(c.callee == LOOKUP for c in i_tables):
+                needs_table = True
                 cont = [c for c in p_calls if (c.callee or "").endswith("::contains")]
                 fld = [sh(ne(pf.deep(c.args[0]))) for c in cont]
                 fld = [f for f in fld if f.startswith("self.")]
@@ -1224,6 +1226,9 @@ def r2b_no_trap_verdicts_rest_on_stable_types(ctx):
                 ctx.bad(key + "|" + problems[0][:28].replace(" ", "-"), pf.where(), "%s on a %s expression %s" % (pname, kind, "; ".join(problems)))
             else:
                 ctx.ok(key, pf.where(), "asks %s" % (", ".join(p_rec) or table_field or "the built-in table"))
+        if not needs_table:
+            ctx.ok("settled|%s|no-variable-type-trusted" % pname, pf.where(), "no expression kind whose type comes from a variable's recorded type is ever called settled")
+            continue
         if table_field is None:
             ctx.bad("settled|%s|no-table-of-reassigned-names" % pname, pf.where(), "%s never consults a table of reassigned variables" % pname)
             continue
